@@ -156,6 +156,8 @@ def mock_spec(rng):
         for k in rng.sample(KEYS[:5], rng.randint(1, 4)):
             kw[k] = {"noise": rng.choice(["0.5", "0", "2e-1"]), "num_per_decade": rng.choice(["3", "5", "7"]), "log_max_f": rng.choice(["4", "3.5"]),
                      "log_min_f": rng.choice(["0", "-1", "0.5"]), "seed": str(rng.randint(0, 999))}[k]
+    if kw.get("noise", "0") != "0" and "seed" not in kw:
+        kw["seed"] = str(rng.randint(0, 999))       # without a seed the noise is drawn afresh on every call: nothing to compare
     spec = ident + (":" + ",".join("%s=%s" % kv for kv in kw.items()) if kw else "")
     return spec, ident, {k: TYPES[k](v) for k, v in kw.items()}
 
